@@ -20,22 +20,25 @@ func init() {
 			"rendered canonically and in 3 (quick) / 6 (thorough) random spellings: 0..3 spaces at every position the grammar marks optional (inside brackets, around , : == != < <= > >= =~ " +
 			"&& ||, after !, inside ?( ) and parentheses, leading/trailing, around filter operands), ' vs \" quotes, + sign / leading zeros on index and slice integers, .* vs [*], .name vs " +
 			"['name'], omitted leading $; judged: identical values, or errors of the same type reported for the same step INDEX (each spelling's own step texts map the reported text back " +
-			"to an index) with the same expected/found; a second segment takes RAW name text (letters, blanks, non-ASCII, DEL / C1, raw C0 control characters, escape sequences valid in both quote styles) and puts the very same characters between single and between double quotes - at root, after `..`, in a multi-name list and inside a filter - on a document that contains the decoded name when the text decodes: both quote styles must give the same values or the same error type; a third segment spells index, union, slice-bound and step integers of one and more digits (0..130, also negative) with `+`, 1..40 leading zeros and combinations, on arrays of up to 131 elements: every spelling must select what the plain decimal spelling selects; non-trivial = the spelling differs from the canonical text and the path has >= 2 steps or a filter; distinct = distinct (spelled text, document)",
+			"to an index) with the same expected/found; a second segment takes RAW name text (letters, blanks, non-ASCII, DEL / C1, raw C0 control characters, escape sequences valid in both quote styles) and puts the very same characters between single and between double quotes - at root, after `..`, in a multi-name list and inside a filter - on a document that contains the decoded name when the text decodes: both quote styles must give the same values or the same error type; a third segment spells index, union, slice-bound and step integers of one and more digits (0..130, also negative) with `+`, 1..40 leading zeros and combinations, on arrays of up to 131 elements: every spelling must select what the plain decimal spelling selects; a fourth segment puts the same RAW text (same chunks, incl. \\uXXXX sequences, which a filter literal does not decode) as a filter string LITERAL between single and between double quotes in ten filter shapes (either operand side, ==, !=, under &&, ||, !, rootless, after `..`), on members holding the raw text, the text with backslashes removed, and its JSON decoding: both quote styles must select the same members or fail with the same error type; non-trivial = the spelling differs from the canonical text and the path has >= 2 steps or a filter; distinct = distinct (spelled text, document)",
 		Assumptions: []string{"the renderer's list of insignificant variations is the one in the property statement"},
 		Plan: func(tier string, seed int64) *harness.Plan {
 			sys := newSysCases("quick")
 			nSp := size(tier, 3, 6)
 			nMain := sys.n()/2 + size(tier, 100000, 6000000)
 			return &harness.Plan{
-				N:     nMain + size(tier, 30000, 1500000),
+				N:     nMain + size(tier, 37500, 1875000),
 				Setup: func(c *harness.Ctx) { hooksOn() },
 				Run: func(c *harness.Ctx, k int) {
 					hooksAlternate(k)
 					var d *diffCase
 					if k >= nMain {
-						if k%4 == 3 {
+						switch k % 5 {
+						case 3:
 							runC18Ints(c)
-						} else {
+						case 4:
+							runC18LitQuotes(c)
+						default:
 							runC18Quotes(c)
 						}
 						return
@@ -54,7 +57,7 @@ func init() {
 					runC18(c, d, nSp)
 				},
 				Finish:   reportHooks,
-				Required: []string{"variation:spaces", "variation:quotes", "variation:int", "variation:rootless", "variation:leading-blank", "same:values", "same:error", "quotes:raw-text-values", "quotes:raw-text-error", "ints:spelled"},
+				Required: []string{"variation:spaces", "variation:quotes", "variation:int", "variation:rootless", "variation:leading-blank", "same:values", "same:error", "quotes:raw-text-values", "quotes:raw-text-error", "ints:spelled", "litquotes:raw-text-values", "litquotes:selects-some", "litquotes:selects-part"},
 			}
 		},
 	})
@@ -208,6 +211,66 @@ func runC18Quotes(c *harness.Ctx) {
 		c.Cover("quotes:raw-text-error")
 		if t1, t2 := fmt.Sprintf("%T", o1.Err), fmt.Sprintf("%T", o2.Err); t1 != t2 {
 			c.Violation("error "+key, "the same name text fails with different error types between single and double quotes", det)
+		}
+	}
+}
+
+// runC18LitQuotes: the same RAW text as a filter STRING LITERAL between single and between double quotes (the grammar
+// decodes both with the same backslash removal, so every escape sequence - also \uXXXX, which is not decoded in a literal -
+// means the same in both). The members hold the raw text, the text with the backslashes removed, and the JSON decoding of
+// the text, so that whichever decoding one quote style would wrongly apply changes the selection.
+func runC18LitQuotes(c *harness.Ctx) {
+	r := c.Rand()
+	var raw string
+	for n := 1 + r.Intn(5); n > 0; n-- {
+		raw += rawNameChunks[r.Intn(len(rawNameChunks))]
+	}
+	var plain []byte
+	for i := 0; i < len(raw); i++ {
+		if raw[i] == '\\' && i+1 < len(raw) {
+			i++
+		}
+		plain = append(plain, raw[i])
+	}
+	vals := []interface{}{raw, string(plain), "a", float64(1), nil}
+	var decoded string
+	if err := json.Unmarshal([]byte(`"`+raw+`"`), &decoded); err == nil {
+		vals = append(vals, decoded)
+	}
+	var arr []interface{}
+	for i, v := range vals {
+		arr = append(arr, map[string]interface{}{"v": v, "i": float64(i)})
+	}
+	var src interface{} = arr
+	forms := []struct{ pre, post string }{
+		{"$[?(@.v == ", ")]"}, {"$[?(", " == @.v)]"}, {"$[?(@.v != ", ")]"}, {"$[?( @.v==", " )].i"}, {"$[?(@.i > 0 && @.v == ", ")]"},
+		{"$[?(@.v == 'a' || @.v == ", ")]"}, {"$[?(!(", " != @.v))]"}, {"$[*].v[?(@ == ", ")]"}, {"[?(@.v == ", ")]"}, {"$..[?(@.v == ", ")]"},
+	}
+	f := forms[r.Intn(len(forms))]
+	sq, dq := f.pre+"'"+raw+"'"+f.post, f.pre+`"`+raw+`"`+f.post
+	o1, o2 := lib.Retrieve(sq, src), lib.Retrieve(dq, src)
+	key := fmt.Sprintf("literal quotes %q vs %q", sq, dq)
+	det := map[string]interface{}{"single_quoted": sq, "double_quoted": dq, "single_quoted_go": fmt.Sprintf("%q", sq), "double_quoted_go": fmt.Sprintf("%q", dq),
+		"document": lib.JS(src), "single_quoted_outcome": o1.String(), "double_quoted_outcome": o2.String()}
+	c.NonTrivial(sq)
+	switch {
+	case o1.Panic != nil || o2.Panic != nil:
+		c.Violation("panic "+key, "Retrieve panicked on a quoted filter literal", det)
+	case (o1.Err == nil) != (o2.Err == nil):
+		c.Violation("outcome "+key, "the same literal text succeeds between one kind of quotes and fails between the other", det)
+	case o1.Err == nil:
+		c.Cover("litquotes:raw-text-values")
+		c.Cover("litquotes:selects-some")
+		if len(o1.Res) < len(arr) {
+			c.Cover("litquotes:selects-part")
+		}
+		if !lib.SameList(o1.Res, o2.Res) {
+			c.Violation("values "+key, "the same literal text selects different members between single and double quotes", det)
+		}
+	default:
+		c.Cover("litquotes:raw-text-error")
+		if t1, t2 := fmt.Sprintf("%T", o1.Err), fmt.Sprintf("%T", o2.Err); t1 != t2 {
+			c.Violation("error "+key, "the same literal text fails with different error types between single and double quotes", det)
 		}
 	}
 }
